@@ -112,7 +112,10 @@ func atomsHave(atoms map[string]bool, pat string) bool {
 func (t *Term) Has(pats ...string) bool {
 	at := t.Atoms()
 	for _, p := range pats {
-		if strings.HasPrefix(p, "^") { // root-operator pattern
+		if strings.HasPrefix(p, "^") { // root-operator pattern (seen through single-valued locals)
+			for (t.Op == "local" || t.Op == "phi") && len(t.Args) == 1 {
+				t = t.Args[0]
+			}
 			if t.Op != p[1:] && !nameMatch(t.Op+":"+t.Name, p[1:]) && !(strings.Contains(p, ":") && t.Op == p[1:strings.Index(p, ":")] && nameMatch(t.Name, p[strings.Index(p, ":")+1:])) {
 				return false
 			}
